@@ -131,6 +131,7 @@ class Config:
         self.exists = True
         self.limit = True
         self.distinct = True
+        self.unary_minus = True
         for k, v in kw.items():
             if not hasattr(self, k):
                 raise TypeError(k)
@@ -320,6 +321,18 @@ class Gen:
             i = self.dollar(gap)
             self.s.features.add('dollar')
             return i, i, 'dollar'
+        if x < 0.985 and cfg.unary_minus:
+            # unary minus: an operator directly followed by its operand (and,
+            # behind a comparison, directly preceded by another operator)
+            f = self.emit('op', '-', gap if gap is not None else self.g())
+            if rng.random() < 0.7 or depth <= 0:
+                l = self.emit('name', self.plain_name(), 'none')
+            else:
+                o = self.open_paren('none')
+                self.expr(depth - 1)
+                l = self.close_paren(o)
+            self.s.features.add('neg')
+            return f, l, 'neg'
         f, l, _, _ = self.colref(gap)
         return f, l, 'col'
 
@@ -376,12 +389,12 @@ class Gen:
                 n = 1
             elif rng.random() < 0.3:
                 n = rng.choice([1, 1, 2, 3])
-        pure = kind not in ('case', 'dollar')
+        pure = kind not in ('case', 'dollar', 'neg')
         for _ in range(n):
             self.emit('op', rng.choice(['+', '-', '*', '/', '||', '%']),
                       'req')
             _, l, k2 = self.atom(depth, 'req')
-            pure = pure and k2 not in ('case', 'dollar')
+            pure = pure and k2 not in ('case', 'dollar', 'neg')
             # an operand the operator grouping does not accept (CASE,
             # dollar-quoted literal) leaves the expression ungrouped
             kind = 'operation' if pure else 'operation-x'
@@ -528,7 +541,7 @@ class Gen:
         f, l, kind = self.expr(depth, self.g())
         bare_ok = kind in ('col', 'call', 'paren')
         al, has_as, ai = self.alias(allow_bare=bare_ok)
-        if ai is not None and kind != 'operation-x':
+        if ai is not None and kind not in ('operation-x', 'neg'):
             kind = 'aliased'
         return f, ai if ai is not None else l, kind
 
@@ -1058,7 +1071,7 @@ class Script:
     """A rendered multi-statement script with all derivation spans."""
 
     def __init__(self, stmts, layout, rng, sep_comments=True,
-                 final_semicolon=None, semi_gap=True):
+                 final_semicolon=None, semi_gap=True, tail_comments=False):
         self.stmts = stmts
         out = []
         self.tok_spans = []
@@ -1112,7 +1125,17 @@ class Script:
                         layout.take_comments(), self.comment_spans)
                 out.append(sep)
             else:
-                out.append(rng.choice(['', '', '\n', ' ', ' \n\n']))
+                tail = rng.choice(['', '', '\n', ' ', ' \n\n'])
+                if tail_comments and layout.comments and rng.random() < 0.35:
+                    # comments behind the last statement (same line or own
+                    # line); a block comment there is a statement of its own
+                    tail = rng.choice(['', ' ', '\n', '\n\n']) \
+                        + layout.comment() + rng.choice(['', '\n', ' '])
+                    if rng.random() < 0.3:
+                        tail += layout.comment()
+                    _locate(tail, sum(len(c) for c in out),
+                            layout.take_comments(), self.comment_spans)
+                out.append(tail)
         self.text = ''.join(out)
 
     def regions(self):
